@@ -58,20 +58,31 @@ func toString(val fhir.Element) string {
 // in the input Instant proto.
 func InstantToString(val *dtpb.Instant) string {
 	if tm, err := InstantToTime(val); err == nil {
+		zone := zoneLayout(val.GetTimezone())
 		switch val.GetPrecision() {
 		case dtpb.Instant_SECOND:
-			return tm.Format("2006-01-02T15:04:05-07:00")
+			return tm.Format("2006-01-02T15:04:05" + zone)
 		case dtpb.Instant_MILLISECOND:
-			return tm.Format("2006-01-02T15:04:05.000-07:00")
+			return tm.Format("2006-01-02T15:04:05.000" + zone)
 		case dtpb.Instant_MICROSECOND:
 			fallthrough
 		default:
-			return tm.Format("2006-01-02T15:04:05.000000-07:00")
+			return tm.Format("2006-01-02T15:04:05.000000" + zone)
 		}
 	}
 	// Fall-back to a basic representation (this shouldn't happen unless timezone
 	// information is garbage, which is a developer-driven issue).
 	return fmt.Sprintf("Instant(%v)", val.GetValueUs())
+}
+
+// zoneLayout returns the layout of the zone suffix: an element whose zone is
+// written "Z" (as read from "...Z" in JSON) renders with "Z" again, as the
+// google/fhir JSON marshaller does; every other zone renders as its offset.
+func zoneLayout(zone string) string {
+	if zone == "Z" {
+		return "Z07:00"
+	}
+	return "-07:00"
 }
 
 // DateTimeToString converts the FHIR DateTime element into its string reprsentation
@@ -89,13 +100,13 @@ func DateTimeToString(val *dtpb.DateTime) string {
 		case dtpb.DateTime_DAY:
 			return tm.Format("2006-01-02")
 		case dtpb.DateTime_SECOND:
-			return tm.Format("2006-01-02T15:04:05-07:00")
+			return tm.Format("2006-01-02T15:04:05" + zoneLayout(val.GetTimezone()))
 		case dtpb.DateTime_MILLISECOND:
-			return tm.Format("2006-01-02T15:04:05.000-07:00")
+			return tm.Format("2006-01-02T15:04:05.000" + zoneLayout(val.GetTimezone()))
 		case dtpb.DateTime_MICROSECOND:
 			fallthrough
 		default:
-			return tm.Format("2006-01-02T15:04:05.000000-07:00")
+			return tm.Format("2006-01-02T15:04:05.000000" + zoneLayout(val.GetTimezone()))
 		}
 	}
 
